@@ -34,6 +34,10 @@ def run(ctx):
     feat = dict(chain=0.6, order_only=0.4, deps=0.5, restat=0.15, pools=0.3, vals=0.2)
     items = sched.small_scenarios(ctx, "C05", 5000 if quick else 25000, rng, size=(2, 6), cap=150 if quick else 400, feat=feat,
                                   faults=True, with_history=0.35)
+    # the same under a jobserver (ninja as a client of make -jN -k: few tokens, possibly none beyond its own slot, a competing
+    # client): what does not depend on a failed command is still started, whoever held which slot when it failed
+    items += sched.small_scenarios(ctx, "C05", 800 if quick else 5000, rng, size=(2, 6), cap=80 if quick else 200, feat=feat,
+                                   faults=True, with_history=0.2, jobserver=1.0, salt=7)
     retry = {"op": "build", "targets": None, "j": 2, "k": 0, "sched": {"mode": "prng", "seed": 5}}
     for scn, info in items:
         ex = scn["steps"][info["explore_step"]]
